@@ -67,6 +67,38 @@ def sweep(ctx, names):
     return ops
 
 
+def special_sweep(ctx, names):
+    """(1) every command of the dispatch table queued inside MULTI and run by EXEC (a handler that replies
+    outside the queued closure answers twice at queue time and leaves a hole in EXEC's array);
+    (2) the GEO commands - which have no reply model - on a key whose members lie in neighbouring geohash
+    boxes and far apart, with every option combination. Checked on the implementation alone: the tokens
+    read before the pipelined marker are exactly one complete RESP value."""
+    rng = ctx.rng
+    c = lambda *a: "resp c1 " + " ".join(hx(x) for x in a)
+    setup = [("SET", "s", "10"), ("RPUSH", "l", "a", "b", "c"), ("HSET", "h", "f", "1", "g", "2"), ("SADD", "t", "a", "b"), ("ZADD", "z", "1", "a", "2", "b"),
+             ("GEOADD", "gk", "0.0001", "0.0001", "ne", "-0.0001", "0.0001", "nw", "0.0001", "-0.0001", "se", "-0.0001", "-0.0001", "sw", "13.361389", "38.115556", "Palermo", "15.087269", "37.502669", "Catania")]
+    ops = ["open a mem", "conn c1"] + [c(*x) for x in setup]
+    args_for = {1: [["s"], ["l"], ["z"], ["gk"]], 2: [["s", "1"], ["z", "a"], ["l", "0"]], 3: [["s", "0", "1"], ["z", "0", "-1"], ["h", "f", "1"], ["gk", "ne", "sw"]]}
+    for name in names:
+        if name in ("MULTI", "EXEC", "DISCARD", "WATCH", "QUIT", "BLPOP", "BRPOP", "FLUSHDB", "FLUSHALL"):
+            continue
+        for arity in (0, 1, 2, 3):
+            for args in (args_for.get(arity) or [[]])[: (2 if ctx.tier == "quick" else 4)]:
+                ops += [c("MULTI"), c(name, *args), c("EXEC")]
+    for radius, unit in (("1", "km"), ("100", "m"), ("500", "km"), ("0", "km"), ("200", "mi")):
+        for center in (("0", "0"), ("15", "37")):
+            for opts in ([], ["WITHDIST"], ["WITHCOORD"], ["WITHHASH"], ["WITHCOORD", "WITHDIST", "WITHHASH"], ["COUNT", "1"], ["COUNT", "2", "ASC"], ["COUNT", "3", "DESC", "WITHDIST"],
+                         ["COUNT", "1", "ANY"], ["ASC"], ["DESC", "WITHCOORD"], ["COUNT", "0"], ["COUNT", "-1"], ["COUNT"], ["WITHDIST", "COUNT", "1", "WITHCOORD"]):
+                ops.append(c("GEORADIUS", "gk", *center, radius, unit, *opts))
+        for member in ("ne", "Palermo", "nobody"):
+            for opts in ([], ["WITHDIST"], ["WITHCOORD", "WITHDIST", "WITHHASH"], ["COUNT", "1"], ["COUNT", "2", "DESC", "WITHDIST"], ["WITHDIST", "KM"]):
+                ops.append(c("GEORADIUSBYMEMBER", "gk", member, radius, unit, *opts))
+    for cmd in (("GEOPOS", "gk", "ne", "nobody", "Palermo"), ("GEOHASH", "gk", "ne", "nobody"), ("GEODIST", "gk", "ne", "sw"), ("GEODIST", "gk", "ne", "sw", "km"), ("GEODIST", "gk", "ne", "nobody"),
+                ("GEODIST", "gk", "ne", "sw", "parsec"), ("GEOPOS", "nokey", "x"), ("GEOPOS", "s", "x"), ("GEORADIUS", "s", "0", "0", "1", "km"), ("GEORADIUS", "nokey", "0", "0", "1", "km", "COUNT", "1")):
+        ops.append(c(*cmd))
+    return ops
+
+
 def big_replies():
     """replies larger than every internal buffer (4 KiB reader buffer, the writer's growing buffer), each
     on a fresh connection and again on a used one: GET of 4095..100000 bytes, MGET of several large
@@ -129,3 +161,20 @@ def run(ctx, proofs_ok):
                                                    "explain": "the implementation's reply to this command is not exactly one complete RESP value (tokens read before the pipelined marker)"})
             break
     ctx.cov["framing_sweep_cases"] = sum(1 for o in ops if o.startswith("resp "))
+    if bad:
+        return
+    ops = special_sweep(ctx, names)
+    g, _m = vlib.run_pair(ctx, ops, h, "sweep2")
+    ctx.cov["evaluations"] += len(ops)
+    for i, op in enumerate(ops):
+        if not op.startswith("resp "):
+            continue
+        out = g[i] if i < len(g) else "<missing>"
+        toks = out.split()
+        name = bytes.fromhex(op.split()[2]).decode() if len(op.split()) > 2 else "?"
+        ctx.nontrivial.add(("sweep2", name, len(op.split()) - 3, toks[0][:2] if toks else ""))
+        if "!" in out or not toks or not one_value(toks):
+            vlib.record_violation(ctx, "framing", {"ops": ops[:8] + ops[max(8, i - 2):i + 1], "impl": [out], "model": [], "command": name,
+                                                   "explain": "the implementation's reply to this command (queued in MULTI / run by EXEC, or a GEO command on real data) is not exactly one complete RESP value (tokens read before the pipelined marker)"})
+            break
+    ctx.cov["framing_sweep_cases_multi_and_geo"] = sum(1 for o in ops if o.startswith("resp "))
